@@ -295,7 +295,7 @@ Export ==
 SelQuick    == [fasta |-> {2, 3, 4, 5, 6}, fastq |-> {2, 3, 4, 5, 6}, genbank |-> {1, 2}, embl |-> {2}]
 SelThree    == [fasta |-> {2, 3, 4, 5}, fastq |-> {2, 4, 5, 6}, genbank |-> {}, embl |-> {}]
 SelFlatThorough == [fasta |-> {}, fastq |-> {}, genbank |-> {1, 2, 4, 6, 9}, embl |-> {1, 2, 4, 6, 9}]
-SelSim      == [fasta |-> {2, 3, 4, 5}, fastq |-> {2, 4, 5, 6}, genbank |-> {1, 2}, embl |-> {1, 2}]
+SelSim      == [fasta |-> {2, 3, 5}, fastq |-> {2, 4, 6}, genbank |-> {1, 2}, embl |-> {1, 2}]
 SelGen3     == [fasta |-> {1, 2, 3, 4, 5, 6}, fastq |-> {1, 2, 3, 4, 5, 6}, genbank |-> {1, 2, 4}, embl |-> {1, 2, 4}]
 SelOne      == [fasta |-> {1}, fastq |-> {1}, genbank |-> {1}, embl |-> {1}]
 SelAll      == [fasta |-> 1..Len(FastaShapes), fastq |-> 1..Len(FastqShapes),
